@@ -43,6 +43,8 @@ func c20Gen(g *core.Gen) {
 		"empty-intact", "empty-deleted", "empty-garbage", "empty-deleted-noparity",
 		// PAR1 only: a set written by the reference writer whose index also lists two files that are NOT saved in the parity set
 		"nonsaved-intact", "nonsaved-deleted",
+		// PAR1 only: 253 files + 3 volumes = 256 shards, the most the format's coder takes; 252 and 254 beside it (254 + 3 is refused at create: not emitted)
+		"wide253-deleted", "wide252-deleted",
 		"recreated-intact", "recreated-deleted", "recreated-shifted+deleted", "recreated-unrepairable", "dupvol-intact", "dupvol-deleted"}
 	cwds := []string{"set", "parent", "unrelated"}
 	for _, f := range []string{"p2", "p1"} {
@@ -52,7 +54,7 @@ func c20Gen(g *core.Gen) {
 			if f == "p1" && strings.HasPrefix(st, "dupvol") {
 				continue // a PAR1 volume's number is part of its name: a copy under another name is a different scenario (C19)
 			}
-			if f == "p2" && (strings.HasPrefix(st, "empty-") || strings.HasPrefix(st, "nonsaved-")) {
+			if f == "p2" && (strings.HasPrefix(st, "empty-") || strings.HasPrefix(st, "nonsaved-") || strings.HasPrefix(st, "wide")) {
 				continue // PAR2 Create refuses zero-length inputs
 			}
 			for _, cw := range cwds {
@@ -172,6 +174,16 @@ func c20Run(ci interface{}, r *core.Rec) {
 	if strings.HasPrefix(c.State, "empty-") {
 		sizes = append(append([]int{}, sizes...), 0)
 	}
+	p1Volumes := 2
+	if strings.HasPrefix(c.State, "wide") {
+		nf := 253
+		fmt.Sscanf(c.State, "wide%d-", &nf)
+		sizes = nil
+		for i := 0; i < nf; i++ {
+			sizes = append(sizes, 1+i%4)
+		}
+		p1Volumes = 3
+	}
 	var paths []string
 	var datas [][]byte
 	for i, n := range sizes {
@@ -229,7 +241,7 @@ func c20Run(ci interface{}, r *core.Rec) {
 		} else if c.Fmt == "p2" {
 			err = par2.Create(index, paths, par2.CreateOptions{SliceByteCount: 4, NumParityShards: 3, NumGoroutines: 1})
 		} else {
-			err = par1.Create(index, paths, par1.CreateOptions{NumParityFiles: 2})
+			err = par1.Create(index, paths, par1.CreateOptions{NumParityFiles: p1Volumes})
 		}
 		if err != nil {
 			r.Violatef("setup-create-failed:"+errClass(err), "%v", err)
@@ -289,7 +301,7 @@ func c20Run(ci interface{}, r *core.Rec) {
 		}
 	}
 	switch c.State {
-	case "nonsaved-deleted":
+	case "nonsaved-deleted", "wide253-deleted", "wide252-deleted":
 		os.Remove(paths[1])
 	case "empty-deleted":
 		os.Remove(paths[len(paths)-1])
